@@ -224,8 +224,10 @@ def _(tier, seed):
             note="ISO 32000-1 7.3.4.3; recorded finding F03 (the repository's own test-suite asserts the deviating value, so it cannot be repaired here)")
 def _():
     fails = []
-    for text, want in ((b"<901FA>", b"\x90\x1f\xa0"), (b"<4>", b"\x40"), (b"<abcd00\n12345>", b"\xab\xcd\x00\x12\x34\x50"), (b"<41 4>", b"A@")):
+    for text, want, deviant in ((b"<901FA>", b"\x90\x1f\xa0", b"\x90\x1f\x0a"), (b"<4>", b"\x40", b"\x04"),
+                                (b"<abcd00\n12345>", b"\xab\xcd\x00\x12\x34\x50", b"\xab\xcd\x00\x12\x34\x05"), (b"<41 4>", b"A@", b"A\x04")):
         got = pp.PDFStreamParser(text + b" ").nextobject()[1]
         if got != want:
-            fails.append(dict(text=text.decode(), got=got.hex(), want=want.hex(), known="F03"))
+            # only the recorded deviation (last digit read as a low nibble) is the known finding
+            fails.append(dict(text=text.decode(), got=got.hex() if isinstance(got, bytes) else repr(got), want=want.hex(), known="F03" if got == deviant else None))
     return dict(cases=4, failures=fails)
